@@ -114,7 +114,7 @@ theorem columnsConsole_decomp (cfg : Cfg) (hcw : cfg.cw = cwD) (hfl : cfg.fl.lea
             intro c hc
             rw [← hcols] at hc
             obtain ⟨j, _, rfl⟩ := List.mem_map.mp hc
-            refine ⟨⟨?_, rfl, rfl⟩, Or.inr ?_⟩
+            refine ⟨⟨?_, rfl, rfl⟩, Or.inr (Or.inr ?_)⟩
             · show o.lay.width.map Int.toNat = none
               rw [hwn]; rfl
             · show (none : Option Nat) ≠ some 0
